@@ -136,6 +136,24 @@ func diffHelpers(c *Ctx) {
 				if !ok || !lastFill.IsValid() || rs.Pos() > lastFill {
 					return true
 				}
+				// a fast path for "both operands empty" returns what the scans would have produced
+				if pnames := paramNames(d); len(pnames) == 2 {
+					for _, y := range enclosing(d.fd.Body, rs) {
+						ifs, isIf := y.(*ast.IfStmt)
+						if !isIf {
+							continue
+						}
+						emptyOf := map[string]bool{}
+						for _, cj := range conjuncts(ifs.Cond) {
+							if subj, empty, okE := emptinessTest(c, cj); okE && empty {
+								emptyOf[subj] = true
+							}
+						}
+						if emptyOf[pnames[0]] && emptyOf[pnames[1]] {
+							return true
+						}
+					}
+				}
 				// inside one of the fill loops a return would be a truncating exit as well
 				early = rs.Pos()
 				return true
@@ -418,4 +436,17 @@ func injectiveEncoding(c *Ctx) {
 			c.bad(R, fname, c.P.Pos(pos), fmt.Sprintf("%s embeds user-controlled strings without quoting (%s): a value that contains the encoder's own separator text collides with a different message, so two different values compare equal and share a checksum", fname, strings.Join(sites, "; ")))
 		}
 	}
+}
+
+func paramNames(d *declInfo) []string {
+	var out []string
+	if d.fd.Type.Params == nil {
+		return nil
+	}
+	for _, f := range d.fd.Type.Params.List {
+		for _, nm := range f.Names {
+			out = append(out, nm.Name)
+		}
+	}
+	return out
 }
